@@ -69,6 +69,8 @@ by `domOK`, see `valOK_of_dom`): no NaN, opaque values print their class by its
 qualified name, dict keys and set elements are hashable, `init=False`
 attributes are at their default. -/
 def valOK (W : World) : Val → Bool
+  | .str t r => decodeStrLit r == some t
+  | .bytes _ bs r => decodeBytesLit r == some bs
   | .float n _ => notNan (some n)
   | .opaque c callee _ n => notNan n && callee == c.path
   | .set _ xs => hashableL xs && valOKL W xs
@@ -87,10 +89,13 @@ end
 
 mutual
 /-- the property's own domain: values for which "equal to the original" can
-hold at all and that a constructor call can produce — no NaN, dict keys and
+hold at all and that a constructor call can produce — the `repr` given for a
+`str`/`bytes` denotes it (true of CPython's `repr`: `str_repr_roundtrips`, `bytes_repr_roundtrips`), no NaN, dict keys and
 set elements hashable, `init=False` attributes at their default, opaque values print their
 class by its qualified name -/
 def domOK (W : World) : Val → Bool
+  | .str t r => decodeStrLit r == some t
+  | .bytes _ bs r => decodeBytesLit r == some bs
   | .float n _ => notNan (some n)
   | .opaque c callee _ n => notNan n && callee == c.path
   | .tuple xs => domOKL W xs
